@@ -87,7 +87,33 @@ class Probe:
 
         self.ftmbl = ftmbl
 
+        self.proc = mods["processing"]
+        self.real_subst = self.proc._substitute_original_strings
+        self.real_replace_nodes = self.proc._replace_nodes
+        self.restores = []     # (original_source, new_source, {node: replacement} or None, result)
+        self.in_subst = False
+
+        def replace_nodes(source, replacements):
+            if probe.in_subst:
+                probe.cur_repl = dict(replacements)
+            return probe.real_replace_nodes(source, replacements)
+
+        def subst(original_source, new_source):
+            probe.in_subst, probe.cur_repl = True, None
+            try:
+                out = probe.real_subst(original_source, new_source)
+            finally:
+                probe.in_subst = False
+            if probe.record_restores and original_source != new_source:
+                probe.restores.append(restore_facts(probe.mods, original_source, new_source, probe.cur_repl, out))
+            return out
+
+        self.replace_nodes, self.subst = replace_nodes, subst
+        self.record_restores = False
+
     def __enter__(self):
+        self.proc._substitute_original_strings = self.subst
+        self.proc._replace_nodes = self.replace_nodes
         self.main.rmspace = self.rm_proxy
         self.fixes.re = self.re_proxy
         self.fixes.fix_too_many_blank_lines = self.ftmbl
@@ -97,6 +123,8 @@ class Probe:
         self.main.rmspace = self.real_rmspace
         self.fixes.re = self.real_re
         self.fixes.fix_too_many_blank_lines = self.real_ftmbl
+        self.proc._substitute_original_strings = self.real_subst
+        self.proc._replace_nodes = self.real_replace_nodes
         return False
 
     def patterns(self):
@@ -283,7 +311,8 @@ def gmask(m) -> str:
 
 
 HEADER = ("From Coq Require Import List NArith Bool String.\nImport ListNotations.\n"
-          "Require Import Pyrefact.Base Pyrefact.LayoutModel Pyrefact.LayoutCases.\nOpen Scope string_scope.\n")
+          "Require Import Pyrefact.Base Pyrefact.LayoutModel Pyrefact.LayoutCases Pyrefact.RestoreModel.\n"
+          "Open Scope string_scope.\n")
 
 
 def stage_case(stage, inp, out, mask=None, outmask=None) -> str:
@@ -461,12 +490,13 @@ def valid(s: str) -> bool:
         return False
 
 
-def _norm_doc(tree):
-    """whitespace inside docstrings is outside the property (the formatter normalises it by design)"""
+def _norm_doc(tree, docs=True):
+    """the u prefix (Constant.kind) does not change the value; whitespace inside docstrings is outside the
+    property (the formatter normalises it by design)"""
     for node in ast.walk(tree):
         if isinstance(node, ast.Constant):
-            node.kind = None          # the u prefix (dropped by black) does not change the value
-        if isinstance(node, (ast.Module, ast.ClassDef, ast.FunctionDef, ast.AsyncFunctionDef)) and node.body:
+            node.kind = None
+        if docs and isinstance(node, (ast.Module, ast.ClassDef, ast.FunctionDef, ast.AsyncFunctionDef)) and node.body:
             first = node.body[0]
             if isinstance(first, ast.Expr) and isinstance(first.value, ast.Constant) and isinstance(first.value.value, str):
                 first.value.value = "".join(first.value.value.split())
@@ -474,12 +504,13 @@ def _norm_doc(tree):
 
 
 def ast_key(s: str, docs=True):
-    """ast.dump of the module (docstring whitespace removed when docs); None if it does not parse"""
+    """ast.dump of the module (u prefix ignored; docstring whitespace removed when docs); None if it does
+    not parse"""
     try:
         tree = ast.parse(s)
     except (SyntaxError, ValueError):
         return None
-    return ast.dump(_norm_doc(tree) if docs else tree)
+    return ast.dump(_norm_doc(tree, docs))
 
 
 # ------------------------------------------------------------------------------------------------
@@ -837,8 +868,11 @@ def check(run: common.Run):
         corpus = [w[1] for w in WITNESSES.values()] + ALL_FIXED
         for i in range(60 if quick else 600):
             corpus.append(gen_module(srnd, dirty=(i % 3 != 0), odd_indent=(i % 2 == 0), cont=False))
+        fam = restore_family()
+        corpus += fam if not quick else fam[::2]
         n_e2e = 0
         post_seen, pitems, pinfo = set(), [], []
+        pr.record_restores = True
         for idx, s in enumerate(corpus):
             if not valid(s):
                 continue
@@ -879,8 +913,27 @@ def check(run: common.Run):
                                     "line_length": ll,
                                     "problem": "syntax tree changed beyond what the pre-pass does"
                                     if k_out is not None else "output does not parse"})
+        pr.record_restores = False
         post_calls = len(pitems)
         add_files("post", "nat * string * string", "long_case_ok", pitems, pinfo, 60)
+
+        # ---- 3b. the quote-restoration step: every real call seen during the sweep vs RestoreModel, and the
+        # property on the call itself (restoring the original spelling must not change the syntax tree)
+        rseen, ritems2, rinfo2 = set(), [], []
+        for f in pr.restores:
+            if f is None or (f["original"], f["new"]) in rseen:
+                continue
+            rseen.add((f["original"], f["new"]))
+            hist["restore:" + ("replaced" if f["replaced"] else "left-alone")] += 1
+            if ast_key(f["out"], docs=False) != ast_key(f["new"], docs=False):
+                failing.append({"site": "processing._substitute_original_strings", "stage": "restore",
+                                "input": f["new"], "original": f["original"], "output": f["out"],
+                                "problem": "restoring the original quoting changed the syntax tree"})
+            if f["replaced"] or len(ritems2) < (300 if quick else 3000):
+                ritems2.append(restore_case(f))
+                rinfo2.append(("restore", f["new"], f["out"], f["original"]))
+        add_files("restore", "bool * list (nat * nat * bool) * list (nat * nat * bool) * list nat",
+                  "restore_case_ok", ritems2, rinfo2, 150)
 
     lap('e2e sweep')
     # ---- 4. minimize_whitespace_line_differences: exhaustive short scripts + seeded + real difflib
@@ -997,8 +1050,9 @@ def check(run: common.Run):
                        "explanation": "a property theorem no longer checks"}, bool(failing))
 
     run.coverage.update(
-        evaluations=len(info) + 7 * len(sinfo) + 3 * len(rinfo) + 7 * len(cinfo) + len(pinfo) + len(minfo) + len(iinfo) + len(dinfo) + n_e2e,
+        evaluations=len(info) + len(rinfo2) + 7 * len(sinfo) + 3 * len(rinfo) + 7 * len(cinfo) + len(pinfo) + len(minfo) + len(iinfo) + len(dinfo) + n_e2e,
         distinct_nontrivial=len({(st, a) for (st, a, b) in info + sinfo + cinfo + pinfo if a != b})
+        + len({x[1] for x in rinfo2 if x[1] != x[2]})
         + len({json.dumps(x[1]) for x in minfo if any(t != 0 for t, _ in x[1])})
         + len({x[1] for x in iinfo if x[1] != x[2]}),
         rule=("text stages: the real format_code is run up to the end of its raw-text pre-pass with recording "
@@ -1010,7 +1064,9 @@ def check(run: common.Run):
               "their tokenize masks (mask transport and the three guards are compared too). minimize_ws: ALL "
               f"scripts of length <= {3 if quick else 4} over 4 tags x 3 lines through a stand-in Differ, seeded "
               "random scripts, real difflib scripts. import spacing: ALL ordered pairs of 7 statement kinds x "
-              "1..4 newlines x nesting, seeded sequences. Non-trivial = the stage changed the text / the script "
+              "1..4 newlines x nesting, seeded sequences. quote restoration: every real call of "
+              "_substitute_original_strings during the sweep (incl. the f-string-fragment family) vs RestoreModel. "
+              "Non-trivial = the stage changed the text / the script "
               "has a non-Keep entry / the spacing changed; distinct by (stage, input)."),
         samples=[sinfo[1717][1], cinfo[5][1][:300] if len(cinfo) > 5 else "",
                  corpus[5][:300], minfo[n_scripts_exh + 1][1] if len(minfo) > n_scripts_exh + 1 else "",
@@ -1025,7 +1081,9 @@ def check(run: common.Run):
                "post_pass_stage_calls_checked": post_calls},
         unmodelled=["black.format_str (line wrapping)", "compactify.format_code",
                     "fixes.fix_line_lengths (statement ranges, elif handling)",
-                    "processing._substitute_original_strings / _substitute_original_fstrings / _do_rewrite",
+                    "processing._substitute_original_fstrings / _do_rewrite; the b/r/f prefix adjustment and the "
+                    "Counter.most_common choice inside _substitute_original_strings (model = set of admissible "
+                    "spellings, compared modulo prefix letters)",
                     "difflib.Differ (abstracted: the theorems hold for every script)",
                     "core.get_charnos / walk_sequence / _is_stdlib feeding fix_import_spacing (inputs of the model)",
                     "textwrap.dedent / indent"],
@@ -1040,7 +1098,7 @@ def check(run: common.Run):
     if notes:
         run.notes += notes
     run.assumptions += [
-        "black, compactify, fix_line_lengths, _substitute_original_strings are not modelled: only the deterministic "
+        "black, compactify, fix_line_lengths, _substitute_original_fstrings, _do_rewrite are not modelled: only the deterministic "
         "sweep (AST equality on generated rule-free modules, 5 line lengths) speaks for them",
         "the mask is the tokenize mask; an f-string is masked from its opening to its closing quote",
         "whitespace inside docstrings is outside the property (normalised before comparing)",
@@ -1063,3 +1121,88 @@ def replay(path: str) -> int:
                     a, b = r[data["stage"]]
                     print("now:", repr(b), "problem:", stage_oracle(data["stage"], a, b))
     return 0
+
+
+# ------------------------------------------------------------------------------------------------
+# quoting restoration (processing._substitute_original_strings / _substitute_original_fstrings)
+
+
+FRAGS = ["row", "px", "42", "total_1", "x1", "3.5", "None"]
+
+
+def restore_family():
+    """Deterministic module family for the quote-restoration step: an f-string whose literal fragment is by
+    itself a valid expression (identifier / number), a plain literal with exactly the same value elsewhere,
+    and something black re-spells (single-quoted literal, upper-case prefix, long line)."""
+    res = []
+    fstrs = ['f"{frag}{{W}}"', 'f"{{W}}{frag}"', 'f"{{W}}: {{W!r:>8}}{frag}"', "f'{frag}{{W}}'",
+             'f"""{frag}{{W}}\n{{W}}{frag}"""', 'F"{{W[0]}}{frag}"']
+    triggers = ["print(W, 'single quoted')", "print(W, B'bytes', R'raw\\d')",
+                "print(W, \"" + "a" * 70 + "\", \"" + "b" * 70 + "\", W)", "print(W)"]
+    k = 0
+    for frag in FRAGS:
+        for fs in fstrs:
+            for plain in ("'{frag}'", '"{frag}"'):
+                trig = triggers[k % len(triggers)]
+                k += 1
+                p = plain.format(frag=frag)
+                f = fs.format(frag=frag)
+                res.append(f"import sys\n\nW = sys.argv\nprint(W)\nprint(W, {p})\n{trig}\nprint({f})\n")
+                if k % 3 == 0:
+                    res.append(f"import sys\n\nW = sys.argv\nprint(W)\n\n\ndef _f{k}(a):\n    if a:\n        {trig}\n"
+                               f"    return [a, {p}, {f}]\n\n\nprint(_f{k}(W))\n")
+    return res
+
+
+PREFIX_CHARS = "bBrRfFuU"
+
+
+def _is_literal_of(text: str, value) -> bool:
+    """CPython's verdict: `text`, parsed on its own, is an expression statement holding exactly the string
+    constant `value` (what is_valid_python + match_template(Constant(value)) ask)."""
+    try:
+        tree = ast.parse(text)
+    except (SyntaxError, ValueError):
+        return False
+    return (len(tree.body) == 1 and isinstance(tree.body[0], ast.Expr)
+            and isinstance(tree.body[0].value, ast.Constant) and type(tree.body[0].value.value) is type(value)
+            and tree.body[0].value.value == value)
+
+
+def restore_facts(mods, original_source, new_source, repl, out):
+    """Inputs of RestoreModel.restore for one real call, gathered with the code's own helpers (core.parse is
+    cached, so the node objects are the ones the call used), and what the call did to every node."""
+    core = mods["core"]
+    try:
+        new_ast, orig_ast = core.parse(new_source), core.parse(original_source)
+    except SyntaxError:
+        return None
+    nn = [(n.value, core.get_code(n, new_source), n) for n in core.walk(new_ast, ast.Constant(value=str))]
+    on = [(n.value, core.get_code(n, original_source)) for n in core.walk(orig_ast, ast.Constant(value=str))]
+    vals, texts = {}, {}
+
+    def vid(v):
+        return vals.setdefault(v, len(vals))
+
+    def tid(s):
+        return texts.setdefault(s, len(texts))
+    origs = [(vid(v), tid(s), _is_literal_of(s, v)) for v, s in on]
+    news = [(vid(v), tid(s), _is_literal_of(s, v)) for v, s, _ in nn]
+    all_in = all(s in original_source for _, s, _ in nn)
+    obs = []
+    for v, s, node in nn:
+        r = (repl or {}).get(node)
+        if r is None:
+            obs.append(0)
+            continue
+        # the b/r/f prefix adjustment is not modelled: compare modulo prefix letters
+        match = [t for (v2, t) in on if v2 == v and t.lstrip(PREFIX_CHARS) == str(r).lstrip(PREFIX_CHARS)]
+        obs.append(1 + (tid(match[0]) if match else 10 ** 6))
+    return {"all_in": all_in, "origs": origs, "news": news, "obs": obs, "original": original_source,
+            "new": new_source, "out": out, "replaced": sum(1 for o in obs if o)}
+
+
+def restore_case(f) -> str:
+    def trip(x):
+        return f"({x[0]}, {x[1]}, {gbool(x[2])})"
+    return (f"({gbool(f['all_in'])}, {glist(f['origs'], trip)}, {glist(f['news'], trip)}, {glist(f['obs'])})")
